@@ -175,7 +175,7 @@ func init() {
 			{Name: "compose", Count: countFn(100000, 2000000), Run: c15Compose},
 			{Name: "funclayout", Count: func(string) int { return 10 * 9 * 9 }, Run: c15Func},
 			{Name: "history", Count: countFn(40, 120), Run: c15History},
-			{Name: "longcode", Count: countFn(48, 480), Run: c15LongCode},
+			{Name: "longcode", Count: countFn(144, 1440), Run: c15LongCode},
 		},
 		Floors: []core.Floor{{Key: "encodes_accepted", Quick: 1000000, Thor: 1000000}, {Key: "encodes_refused", Quick: 100000, Thor: 100000}, {Key: "tag:opcode:", Quick: 128, Thor: 128}, {Key: "function_layouts", Quick: 810, Thor: 810}, {Key: "history_statements_worked", Quick: 500, Thor: 2500}, {Key: "history_statements_refused", Quick: 300, Thor: 1500}, {Key: "tag:history:", Quick: 4, Thor: 4}},
 		Extra: func(a *core.Agg, cov map[string]any) {
